@@ -247,8 +247,8 @@ const char *const TOKENS_Q[] = {
     "GET / HTTP/1.1\r\n", "Host: h\r\n", "a:b", "\t", "X", "HTTP/12.1", "\0", "\x0b", "\x80", "http://h/", "HTTP/1.0",
     "aaaaaaaaaaaaaaaa",
 };
-// thorough adds: a POST line (no HTTP/0.9 fallback), a colon
-const char *const TOKENS_T[] = { "POST / HTTP/1.1\r\n", ":" };
+// thorough adds: a POST line (no HTTP/0.9 fallback)
+const char *const TOKENS_T[] = { "POST / HTTP/1.1\r\n" };
 
 void body(V::Ctx &ctx)
 {
